@@ -471,7 +471,7 @@ func runC38(c *core.Ctx) error {
 	// 1. exhaustive model checking of the design-level properties
 	mcs := []mcCfg{
 		{name: "one-conn-cancel-timeout", calls: []int{1, 2}, nc1: 2, workers: 1, memLimit: 1, tmo: []int{2}, cancel: []int{1}, outs: fewOuts, orphans: true},
-		{name: "two-clients-contention-close", calls: []int{1, 2}, nc1: 1, workers: 1, memLimit: 1, closes: 1, outs: []string{"ok", "cancelled"}, orphans: true},
+		{name: "one-call-close", calls: []int{1}, nc1: 1, workers: 1, memLimit: 1, closes: 1, cancel: []int{1}, outs: []string{"ok", "cancelled"}, orphans: true},
 		{name: "two-clients-memory-wait-deadline", calls: []int{1, 2}, nc1: 1, workers: 1, memLimit: 1, outs: []string{"ok", "cancelled"}, orphans: true, bodyDL: true},
 		{name: "one-call-cut", calls: []int{1}, nc1: 1, workers: 1, memLimit: 1, cuts: 1, tmo: []int{1}, ff: []int{1}, cancel: []int{1}, outs: fewOuts, orphans: true},
 		{name: "one-conn-proxy-failfast", calls: []int{1, 2}, nc1: 2, workers: 1, memLimit: 1, proxy: 2, ff: []int{2}, outs: []string{"ok", "cancelled"}, orphans: true},
@@ -479,6 +479,7 @@ func runC38(c *core.Ctx) error {
 	}
 	if c.Thorough() {
 		mcs = append(mcs,
+			mcCfg{name: "two-clients-contention-close", calls: []int{1, 2}, nc1: 1, workers: 1, memLimit: 1, closes: 1, outs: []string{"ok", "cancelled"}, orphans: true},
 			mcCfg{name: "one-call-closes-timeout", calls: []int{1}, nc1: 1, workers: 1, memLimit: 1, closes: 2, tmo: []int{1}, cancel: []int{1}, outs: fewOuts, orphans: true},
 			mcCfg{name: "one-conn-faults", calls: []int{1, 2}, nc1: 2, workers: 1, memLimit: 1, cuts: 1, proxy: 2, ff: []int{2}, cancel: []int{1}, outs: []string{"ok", "cancelled"}, orphans: true},
 			mcCfg{name: "two-clients-close-cancel", calls: []int{1, 2}, nc1: 1, workers: 1, memLimit: 1, closes: 1, cancel: []int{1}, outs: []string{"ok", "cancelled"}, orphans: true},
@@ -543,7 +544,7 @@ func runC38(c *core.Ctx) error {
 		{name: "proxy", calls: []int{1, 2, 3}, nc1: 3, workers: 2, memLimit: 3, proxy: 2, ff: []int{2, 3}, cancel: []int{1}, outs: allOuts, orphans: true},
 		{name: "shutdown", calls: []int{1, 2, 3}, nc1: 2, workers: 2, memLimit: 3, closes: 1, cancel: []int{1, 2}, outs: allOuts, shutdown: true, orphans: true},
 	}
-	perProfile := c.Pick(5, 30)
+	perProfile := c.Pick(3, 30)
 	if devFast {
 		perProfile = 2
 	}
@@ -619,7 +620,7 @@ func runC38(c *core.Ctx) error {
 			}
 		}
 	}
-	if nShapes < 20 && !devFast {
+	if nShapes < 12 && !devFast {
 		return fmt.Errorf("vacuous: TLC generated only %d scenario shapes", nShapes)
 	}
 	for e := range envs {
@@ -854,7 +855,7 @@ func runMixes(c *core.Ctx, st *c38State, drvPath string) error {
 		env    envCfg
 		params map[string]any
 	}
-	calls := c.Pick(12, 40)
+	calls := c.Pick(8, 40)
 	mixes := []mixJob{
 		{envCfg{Net: "tcp4", MaxWorkers: 2}, map[string]any{"calls": calls, "cut": true}},
 		{envCfg{Net: "unix", Key: cryptoKey, MaxWorkers: 3, Dir: c.Scratch}, map[string]any{"calls": calls, "closeSrv": true}},
@@ -866,6 +867,10 @@ func runMixes(c *core.Ctx, st *c38State, drvPath string) error {
 			m := mixes[i%4]
 			mixes = append(mixes, mixJob{m.env, m.params})
 		}
+	} else {
+		// quick: two of the four mixes, chosen by the seed
+		k := int(c.Seed) % 4
+		mixes = []mixJob{mixes[k], mixes[(k+1)%4]}
 	}
 	var jobs []func() error
 	for i, m := range mixes {
